@@ -7,32 +7,34 @@ Import ListNotations.
 
 (* ------------------------------------------------------------------ equality relations *)
 
-Lemma Qeq_bool_sym' x y : Qeq_bool x y = true -> Qeq_bool y x = true.
-Proof. rewrite !Qeq_bool_iff. intros H; symmetry; exact H. Qed.
+Lemma Qc_eq_bool_refl x : Qcanon.Qc_eq_bool x x = true.
+Proof. unfold Qcanon.Qc_eq_bool. destruct (Qcanon.Qc_eq_dec x x); [reflexivity | congruence]. Qed.
 
-Lemma Qeq_bool_trans' x y z : Qeq_bool x y = true -> Qeq_bool y z = true -> Qeq_bool x z = true.
-Proof. rewrite !Qeq_bool_iff. intros H1 H2; rewrite H1; exact H2. Qed.
+Lemma Qc_eq_bool_eq x y : Qcanon.Qc_eq_bool x y = true <-> x = y.
+Proof. split; [apply Qcanon.Qc_eq_bool_correct | intros ->; apply Qc_eq_bool_refl]. Qed.
+
+(** Python == on tuples of floats is Leibniz equality of the canonical values *)
+Lemma qlist_eqb_eq a : forall b, qlist_eqb a b = true <-> a = b.
+Proof.
+  induction a as [|x xs IH]; intros [|y ys]; cbn [qlist_eqb]; try (split; [discriminate | congruence]); [split; reflexivity|].
+  rewrite andb_true_iff, Qc_eq_bool_eq, IH. split; [intros [-> ->]; reflexivity | intros H; injection H; auto].
+Qed.
 
 Lemma qlist_eqb_refl l : qlist_eqb l l = true.
-Proof. induction l as [|x xs IH]; cbn [qlist_eqb]; [reflexivity|]. rewrite Qeq_bool_refl, IH. reflexivity. Qed.
+Proof. apply qlist_eqb_eq. reflexivity. Qed.
 
-Lemma qlist_eqb_sym a : forall b, qlist_eqb a b = true -> qlist_eqb b a = true.
-Proof.
-  induction a as [|x xs IH]; intros [|y ys]; cbn [qlist_eqb]; try discriminate; [reflexivity|].
-  rewrite !andb_true_iff. intros [H1 H2]. split; [apply Qeq_bool_sym'; exact H1 | apply IH; exact H2].
-Qed.
+Lemma qlist_eqb_sym a b : qlist_eqb a b = true -> qlist_eqb b a = true.
+Proof. rewrite !qlist_eqb_eq. congruence. Qed.
 
-Lemma qlist_eqb_trans a : forall b c, qlist_eqb a b = true -> qlist_eqb b c = true -> qlist_eqb a c = true.
-Proof.
-  induction a as [|x xs IH]; intros [|y ys] [|z zs]; cbn [qlist_eqb]; try discriminate; [reflexivity|].
-  rewrite !andb_true_iff. intros [H1 H2] [H3 H4].
-  split; [eapply Qeq_bool_trans'; eassumption | eapply IH; eassumption].
-Qed.
+Lemma qlist_eqb_trans a b c : qlist_eqb a b = true -> qlist_eqb b c = true -> qlist_eqb a c = true.
+Proof. rewrite !qlist_eqb_eq. congruence. Qed.
 
-Lemma qlist_eqb_length a : forall b, qlist_eqb a b = true -> length a = length b.
+Lemma gval_eqb_eq a b : gval_eqb a b = true <-> a = b.
 Proof.
-  induction a as [|x xs IH]; intros [|y ys]; cbn [qlist_eqb length]; try discriminate; [reflexivity|].
-  rewrite andb_true_iff. intros [_ H]. f_equal. apply IH; exact H.
+  destruct a, b; cbn [gval_eqb]; try (split; [discriminate | congruence]); [split; reflexivity | | |].
+  - rewrite Z.eqb_eq. split; congruence.
+  - rewrite str_eqb_eq. split; congruence.
+  - rewrite qlist_eqb_eq. split; congruence.
 Qed.
 
 Lemma gval_eqb_refl a : gval_eqb a a = true.
@@ -58,6 +60,12 @@ Qed.
 
 Lemma key_eqb_refl a : key_eqb a a = true.
 Proof. induction a as [|x xs IH]; cbn [key_eqb]; [reflexivity|]. rewrite gval_eqb_refl, IH. reflexivity. Qed.
+
+Lemma key_eqb_eq a : forall b, key_eqb a b = true <-> a = b.
+Proof.
+  induction a as [|x xs IH]; intros [|y ys]; cbn [key_eqb]; try (split; [discriminate | congruence]); [split; reflexivity|].
+  rewrite andb_true_iff, gval_eqb_eq, IH. split; [intros [-> ->]; reflexivity | intros H; injection H; auto].
+Qed.
 
 Lemma key_eqb_sym a : forall b, key_eqb a b = true -> key_eqb b a = true.
 Proof.
@@ -114,12 +122,11 @@ Section Close.
     apply Qplus_le_compat; assumption.
   Qed.
 
-  Lemma forallb_close_eq x : forall y, qlist_eqb x y = true ->
-    forallb (fun p => close_q atol (fst p) (snd p)) (combine x y) = true.
+  Lemma forallb_close_eq (x : list Q) :
+    forallb (fun p => close_q atol (fst p) (snd p)) (combine x x) = true.
   Proof.
-    induction x as [|a xs IH]; intros [|b ys]; cbn [qlist_eqb combine forallb]; try discriminate; try reflexivity.
-    rewrite !andb_true_iff. intros [H1 H2]. split; [|apply IH; exact H2].
-    cbn [fst snd]. apply close_q_eq. apply Qeq_bool_iff. exact H1.
+    induction x as [|a xs IH]; cbn [combine forallb]; [reflexivity|].
+    rewrite IH, andb_true_r. cbn [fst snd]. apply close_q_eq. reflexivity.
   Qed.
 
   Lemma allclose_eq a b : gval_eqb a b = true -> allclose atol a b <> Ok false.
@@ -127,8 +134,8 @@ Section Close.
     destruct a, b; cbn [gval_eqb]; try discriminate; intros H; unfold allclose; cbn [numeric]; try discriminate.
     - apply Z.eqb_eq in H. subst z0. unfold broadcast. cbn [length Nat.eqb combine bind forallb fst snd].
       rewrite close_q_eq by reflexivity. discriminate.
-    - unfold broadcast. rewrite (qlist_eqb_length _ _ H), Nat.eqb_refl. cbn [bind].
-      rewrite forallb_close_eq by exact H. discriminate.
+    - apply qlist_eqb_eq in H. subst l0. unfold broadcast. rewrite Nat.eqb_refl. cbn [bind].
+      rewrite forallb_close_eq. discriminate.
   Qed.
 
   Lemma close_elem_eq a b : gval_eqb a b = true -> close_elem atol a b <> Ok false.
